@@ -84,7 +84,7 @@ ScalarVars == Visible \ ((IF P.ty = "str" THEN NumOnly ELSE {}) \cup ArrNames)
 CallArgSets(f, c) == IF P.arity[f] = 0 THEN {<<>>}
                      ELSE IF P.ty = "str" THEN {<<Atom(c)>>} \cup {<<Var(x)>> : x \in ScalarVars} \cup {<<Bin("add", Var(x), Atom(c))>> : x \in ScalarVars \cap (IF "argcat" \in P.kinds THEN ScalarVars ELSE {})}
                      ELSE IF "k" \in Visible THEN {<<Bin("minus", Var("k"), Num(1))>>} ELSE {<<Num(0)>>, <<Num(2)>>}
-Calls(c) == UNION {{Call(f, as) : as \in CallArgSets(f, c)} : f \in VisibleFuns}
+Calls(c) == IF "arrfn" \in P.kinds THEN {} ELSE UNION {{Call(f, as) : as \in CallArgSets(f, c)} : f \in VisibleFuns}
 NumVars == IF P.ty = "num" THEN Visible ELSE Visible \cap NumOnly
 Exprs(c) ==
   {Atom(c)}
@@ -128,6 +128,19 @@ GenSimple ==
      \/ /\ Has("arr") /\ \E a \in VisArr, e \in Exprs(id) : AddStmt(ExprS(id, MCall(Var(a), "push", <<e>>)))
      \/ /\ Has("arr") /\ \E a \in VisArr, e \in Exprs(id) : AddStmt(SetI(id, a, <<Num(0)>>, e))
      \/ /\ Has("arr") /\ \E a \in VisArr : AddStmt(Shout(id, Var(a)))
+     \* nested arrays: literals of depth 2, an array stored in / pushed onto another, writes and mutation at depth 2
+     \/ /\ Has("arr2") /\ \E a \in ArrNames \cap P.names : AddDecl(Make(id, a, ArrE(<<ArrE(<<Atom(id)>>), Atom(id + 100)>>)), a)
+     \/ /\ Has("arr2") /\ \E a \in VisArr, b \in VisArr : AddStmt(ExprS(id, MCall(Var(a), "push", <<Var(b)>>)))
+     \/ /\ Has("arr2") /\ \E a \in VisArr, b \in VisArr : AddStmt(SetI(id, a, <<Num(0)>>, Var(b)))
+     \/ /\ Has("arr2") /\ \E a \in VisArr : AddStmt(SetI(id, a, <<Num(0), Num(0)>>, Atom(id)))
+     \/ /\ Has("arr2") /\ \E a \in VisArr : AddStmt(ExprS(id, MCall(Idx(Var(a), Num(0)), "push", <<Atom(id)>>)))
+     \/ /\ Has("arr2") /\ \E a \in VisArr : \E r \in {Var(a), Idx(Var(a), Num(0))} : AddStmt(ExprS(id, MCall(r, "reverse", <<>>)))
+     \/ /\ Has("arr2") /\ \E a \in VisArr : AddStmt(ExprS(id, MCall(Var(a), "pop", <<>>)))
+     \/ /\ Has("arr2") /\ \E a \in ArrNames \cap P.names, b \in VisArr : AddDecl(Make(id, a, Idx(Var(b), Num(0))), a)
+     \* an array passed to a function that mutates its parameter and returns it
+     \/ /\ Has("arrfn") /\ \E a \in ArrNames \cap P.names, b \in VisArr, f \in VisibleFuns : AddDecl(Make(id, a, Call(f, <<Var(b)>>)), a)
+     \/ /\ Has("arrfn") /\ \E b \in VisArr, f \in VisibleFuns : AddStmt(ExprS(id, Call(f, <<Var(b)>>)))
+     \/ /\ Has("arrfn") /\ InFun /\ \E a \in VisArr : AddStmt(Ret(id, Var(a)))
      \/ /\ Has("brk") /\ InLoop /\ Len(Cur.stmts) >= 1 /\ AddStmt(Brk(id))
      \/ /\ Has("cont") /\ InLoop /\ Len(Cur.stmts) >= 1 /\ AddStmt(Cont(id))
   /\ n' = n + 1
@@ -149,11 +162,11 @@ GenOpen ==
         /\ n' = n + 3
      \/ \* definition of a function this block promised
         /\ Has("def") /\ \E f \in Cur.funs \ Cur.defd :
-             LET ps == IF P.arity[f] = 0 THEN <<>> ELSE IF P.ty = "str" THEN <<"s">> ELSE <<"k">>
+             LET ps == IF P.arity[f] = 0 THEN <<>> ELSE IF Has("arrfn") THEN <<"b">> ELSE IF P.ty = "str" THEN <<"s">> ELSE <<"k">>
                  guard == [k |-> "if", id |-> 2000 + id, c |-> Bin("lt", Var("k"), Num(1)), t |-> <<Ret(3000 + id, Atom(id))>>, f |-> <<>>]
              IN stk' = Append([stk EXCEPT ![Len(stk)].defd = @ \cup {f}],
                               [Open("def", id, {}, {ps[j] : j \in 1..Len(ps)}, [f |-> f, ps |-> ps])
-                                 EXCEPT !.stmts = IF ps = <<>> \/ P.ty = "str" THEN <<>> ELSE <<guard>>])
+                                 EXCEPT !.stmts = IF ps = <<>> \/ P.ty = "str" \/ Has("arrfn") THEN <<>> ELSE <<guard>>])
         /\ n' = n + 1
   /\ UNCHANGED <<phase, prog, m, fuel, hist>>
 
@@ -165,7 +178,7 @@ Wrap(e) ==
     \* every function ends with a `return` of the profile's type, so that calls have that type
     [] e.kind = "def" -> [k |-> "def", id |-> e.id, d |-> 10 * e.id, n |-> e.hdr.f, site |-> 0, ps |-> e.hdr.ps,
                           pd |-> [j \in 1..Len(e.hdr.ps) |-> 10 * e.id + j], psites |-> [j \in 1..Len(e.hdr.ps) |-> 0],
-                          b |-> Append(e.stmts, Ret(1000 + e.id, Atom(e.id)))]
+                          b |-> Append(e.stmts, Ret(1000 + e.id, IF Has("arrfn") THEN Var("b") ELSE Atom(e.id)))]
 Closable(e) == e.funs \subseteq e.defd /\ (e.stmts # <<>> \/ Has("empty"))
 
 GenClose ==
@@ -197,7 +210,14 @@ Run ==
 Init == /\ phase = "gen" /\ n = 0 /\ prog = <<>> /\ fuel = 0 /\ hist = <<>>
         /\ m = [st |-> "none"]
         \* a profile may fix a prelude: statements (with the names they declare) every program starts with
-        /\ \E D \in Promises : stk = <<[Open("root", 0, D, P.preDecl, <<>>) EXCEPT !.stmts = P.prelude]>>
+        \* ... and may start inside an already open loop (`preLoop`): make i1 get 0 / jasi (i1 small pass 2) start i1 get i1 add 1 ...
+        /\ \E D \in Promises :
+             LET root == [Open("root", 0, D, P.preDecl, <<>>) EXCEPT !.stmts = P.prelude] IN
+             IF "preLoop" \in P.kinds
+             THEN stk = <<[root EXCEPT !.stmts = Append(@, Make(901, "i1", Num(0))), !.decl = @ \cup {"i1"}],
+                          [Open("loop", 902, {}, {}, [c |-> Bin("lt", Var("i1"), Num(2))])
+                             EXCEPT !.stmts = <<Set(903, "i1", Bin("add", Var("i1"), Num(1)))>>]>>
+             ELSE stk = <<root>>
 Next == GenSimple \/ GenOpen \/ GenClose \/ GenFinish \/ Run
 Spec == Init /\ [][Next]_vars
 
